@@ -9,6 +9,78 @@ import Mathlib.Data.List.Perm.Basic
 namespace DSymVerif.FGP
 open DSymVerif DSymVerif.DS DSymVerif.FG
 
+/-- `x` is the root or the far side of a facet of `L` -/
+def Reached (ds : DSymData) (root : Nat) (L : List Edge) (x : Nat) : Prop :=
+  x = root ∨ ∃ e ∈ L, ds.dset.opU e.2 e.1 = x
+
+theorem Reached.mono {ds : DSymData} {root : Nat} {L L' : List Edge} (h : ∀ e ∈ L, e ∈ L') {x : Nat}
+    (hx : Reached ds root L x) : Reached ds root L' x := by
+  rcases hx with h1 | ⟨e, he, h2⟩
+  · exact Or.inl h1
+  · exact Or.inr ⟨e, h e he, h2⟩
+
+/-- facets listed in the order of a graph search from `root` -/
+inductive OTree (ds : DSymData) (root : Nat) : List Edge → Prop
+  | nil : OTree ds root []
+  | snoc {L : List Edge} {d i : Nat} : OTree ds root L → FacetR ds d i → Reached ds root L d →
+      ¬ Reached ds root L (ds.dset.opU i d) → OTree ds root (L ++ [(d, i)])
+
+theorem OTree.source_reached {ds : DSymData} {root : Nat} {L : List Edge} (h : OTree ds root L) :
+    ∀ e ∈ L, FacetR ds e.1 e.2 ∧ Reached ds root L e.1 := by
+  induction h with
+  | nil => intro e he; cases he
+  | @snoc L d i _ hf hr _ ih =>
+    intro e he
+    rcases List.mem_append.1 he with h | h
+    · exact ⟨(ih e h).1, (ih e h).2.mono (fun x hx => List.mem_append_left _ hx)⟩
+    · simp only [List.mem_singleton] at h
+      subst h
+      exact ⟨hf, hr.mono (fun x hx => List.mem_append_left _ hx)⟩
+
+/-- reached from one of several roots -/
+def ReachedF (ds : DSymData) (R : List Nat) (L : List Edge) (x : Nat) : Prop :=
+  x ∈ R ∨ ∃ e ∈ L, ds.dset.opU e.2 e.1 = x
+
+/-- a search forest: roots may be added when they are not yet reached -/
+inductive OForest (ds : DSymData) : List Nat → List Edge → Prop
+  | nil : OForest ds [] []
+  | root {R : List Nat} {L : List Edge} {x : Nat} : OForest ds R L → ¬ ReachedF ds R L x →
+      OForest ds (x :: R) L
+  | snoc {R : List Nat} {L : List Edge} {d i : Nat} : OForest ds R L → FacetR ds d i →
+      ReachedF ds R L d → ¬ ReachedF ds R L (ds.dset.opU i d) → OForest ds R (L ++ [(d, i)])
+
+theorem OForest.no_root {ds : DSymData} {R : List Nat} {L : List Edge} (h : OForest ds R L) :
+    R = [] → L = [] := by
+  induction h with
+  | nil => intro _; rfl
+  | root _ _ _ => intro h; cases h
+  | @snoc R L d i _ _ hr _ ih =>
+    intro hR
+    have := ih hR
+    subst this; subst hR
+    rcases hr with h | ⟨e, he, _⟩
+    · cases h
+    · cases he
+
+theorem OForest.toTree {ds : DSymData} {R : List Nat} {L : List Edge} (h : OForest ds R L) :
+    ∀ root, R = [root] → OTree ds root L := by
+  induction h with
+  | nil => intro root h; cases h
+  | @root R L x hf _ _ =>
+    intro root hR
+    have h1 : R = [] := (List.cons.inj hR).2
+    have := hf.no_root h1
+    subst this
+    exact OTree.nil
+  | @snoc R L d i _ hfac hr hn ih =>
+    intro root hR
+    have hconv : ∀ x, ReachedF ds R L x ↔ Reached ds root L x := by
+      intro x
+      unfold ReachedF Reached
+      rw [hR]
+      simp
+    exact OTree.snoc (ih root hR) hfac ((hconv d).1 hr) (fun h => hn ((hconv _).2 h))
+
 /-- `x` is joined to `root` by tree facets, each crossed from its recorded side -/
 inductive TreeReach (ds : DSymData) (tree : List Item) (root : Nat) : Nat → Prop
   | root : TreeReach ds tree root root
@@ -35,12 +107,17 @@ theorem spanningTree_eq (ds : DSymData) :
 
 def isStart (t : View.TravItem) : Bool := t.1.isNone
 
+/-- the facets of a list of queue items -/
+def edgesOf (l : List Item) : List Edge := l.map fun it => (it.1, it.2.1)
+
 structure TreeInv (ds : DSymData) (pre : List View.TravItem) (acc : List Nat × List Item) : Prop where
   seen : ∀ x, x ∈ acc.1 ↔ ∃ u ∈ pre, u.2.2 = x
   nodup : acc.1.Nodup
   count : acc.1.length = acc.2.length + (pre.filter isStart).length
   reach : ∀ x ∈ acc.1, ∃ s ∈ pre, s.1 = none ∧ TreeReach ds acc.2 s.2.1 x
   items : ∀ it ∈ acc.2, it.2.2 = none
+  forest : ∃ R, OForest ds R (edgesOf acc.2) ∧ (∀ x, x ∈ acc.1 ↔ ReachedF ds R (edgesOf acc.2) x) ∧
+    R.length = (pre.filter isStart).length
 
 theorem tree_fold {ds : DSymData} (hv : ValidSet ds.dset) :
     ∀ (post pre : List View.TravItem) (acc : List Nat × List Item),
@@ -74,7 +151,12 @@ theorem tree_fold {ds : DSymData} (hv : ValidSet ds.dset) :
         cases ht : t.1 with
         | none => exact absurd ht hsome
         | some i => rfl
-      refine ⟨?_, h.nodup, ?_, ?_, h.items⟩
+      refine ⟨?_, h.nodup, ?_, ?_, h.items, ?_⟩
+      rotate_right
+      · obtain ⟨R, f1, f2, f3⟩ := h.forest
+        refine ⟨R, f1, f2, ?_⟩
+        rw [List.filter_append, List.length_append]
+        simp [hst, f3]
       · intro x
         rw [h.seen x]
         constructor
@@ -97,7 +179,17 @@ theorem tree_fold {ds : DSymData} (hv : ValidSet ds.dset) :
         simp only
         have hst : isStart t = true := by unfold isStart; rw [ht]; rfl
         obtain ⟨e1, _, _, _⟩ := s2 ht
-        refine ⟨?_, List.nodup_cons.2 ⟨hnin, h.nodup⟩, ?_, ?_, h.items⟩
+        refine ⟨?_, List.nodup_cons.2 ⟨hnin, h.nodup⟩, ?_, ?_, h.items, ?_⟩
+        rotate_right
+        · obtain ⟨R, f1, f2, f3⟩ := h.forest
+          refine ⟨t.2.2 :: R, OForest.root f1 (fun hr => hnin ((f2 _).2 hr)), ?_, ?_⟩
+          · intro x
+            rw [List.mem_cons, f2 x]
+            unfold ReachedF
+            rw [List.mem_cons]
+            tauto
+          · rw [List.filter_append, List.length_append, List.length_cons]
+            simp [hst, f3]
         · intro x
           rw [List.mem_cons, h.seen x]
           constructor
@@ -130,7 +222,31 @@ theorem tree_fold {ds : DSymData} (hv : ValidSet ds.dset) :
           show (ds.op i t.2.1).getD t.2.1 = _
           rw [op_eq hfac.2.2 hfac.1 hfac.2.1]; rfl
         have hsrc : t.2.1 ∈ acc.1 := (h.seen _).2 ⟨u, hu, hue⟩
-        refine ⟨?_, List.nodup_cons.2 ⟨hnin, h.nodup⟩, ?_, ?_, ?_⟩
+        refine ⟨?_, List.nodup_cons.2 ⟨hnin, h.nodup⟩, ?_, ?_, ?_, ?_⟩
+        rotate_right
+        · obtain ⟨R, f1, f2, f3⟩ := h.forest
+          have he : edgesOf (acc.2 ++ [(t.2.1, i, none)]) = edgesOf acc.2 ++ [(t.2.1, i)] := by
+            unfold edgesOf; simp
+          rw [he]
+          refine ⟨R, OForest.snoc f1 hfac ((f2 _).1 hsrc) (fun hr => hnin (by rw [htgt]; exact (f2 _).2 hr)),
+            ?_, ?_⟩
+          · intro x
+            rw [List.mem_cons, f2 x]
+            unfold ReachedF
+            constructor
+            · rintro (hx | hx | ⟨e, he', hx⟩)
+              · exact Or.inr ⟨(t.2.1, i), by simp, by rw [hx, htgt]⟩
+              · exact Or.inl hx
+              · exact Or.inr ⟨e, List.mem_append_left _ he', hx⟩
+            · rintro (hx | ⟨e, he', hx⟩)
+              · exact Or.inr (Or.inl hx)
+              · rcases List.mem_append.1 he' with he' | he'
+                · exact Or.inr (Or.inr ⟨e, he', hx⟩)
+                · simp only [List.mem_singleton] at he'
+                  subst he'
+                  exact Or.inl (by rw [← hx, htgt])
+          · rw [List.filter_append, List.length_append]
+            simp [hst, f3]
         · intro x
           rw [List.mem_cons, h.seen x]
           constructor
@@ -165,14 +281,17 @@ theorem spanningTree_spanning {ds : DSymData} (hv : ValidSet ds.dset) (hsize : 1
     (hc : ds.view.isConnected = true) :
     (spanningTree ds).length + 1 = ds.size ∧
     ∃ root, 1 ≤ root ∧ root ≤ ds.size ∧
-      ∀ x, 1 ≤ x → x ≤ ds.size → TreeReach ds (spanningTree ds) root x := by
+      (∀ x, 1 ≤ x → x ≤ ds.size → TreeReach ds (spanningTree ds) root x) ∧
+      OTree ds root (edgesOf (spanningTree ds)) ∧
+      ∀ x, 1 ≤ x → x ≤ ds.size → Reached ds root (edgesOf (spanningTree ds)) x := by
   have hp : ds.view.PInvol := (C02.traversal_hyp ds.dset).2.2 ds hv
   have hconn := (C02.isConnected_iff ds.view hp).1 hc
   have hseeds : ∀ d ∈ ds.view.elements.reverse, 1 ≤ d ∧ d ≤ ds.size := fun d hd =>
     (DS.mem_elements ds.view d).1 (List.mem_reverse.1 hd)
   have hinv := tree_fold hv (ds.view.traversal ds.view.indices ds.view.elements.reverse) [] ([], [])
     (by simp) ⟨fun x => (by simp), List.nodup_nil, (by simp), fun x hx => (by cases hx),
-      fun it hit => (by cases hit)⟩
+      fun it hit => (by cases hit),
+      ⟨[], OForest.nil, fun x => (by simp [ReachedF, edgesOf]), (by simp)⟩⟩
   rw [List.nil_append] at hinv
   obtain ⟨c1, _, _, _, c5, _⟩ := C02.traversal_complete ds.view hp ds.view.indices ds.view.elements.reverse
   set tr := ds.view.traversal ds.view.indices ds.view.elements.reverse with htr
@@ -251,11 +370,16 @@ theorem spanningTree_spanning {ds : DSymData} (hv : ValidSet ds.dset) (hsize : 1
       obtain ⟨_, s2, _⟩ := C02.traversal_sound ds.view ds.view.indices ds.view.elements.reverse
         pre post s hsp
       exact hseeds _ (s2 hsn).2.1
-    refine ⟨hsr.1, hsr.2, ?_⟩
-    intro x h1 h2
-    obtain ⟨s', hs', hsn', hr⟩ := hinv.reach x ((hseen x).2 ⟨h1, h2⟩)
-    have : s' = s := huniq s' (List.mem_filter.2 ⟨hs', by unfold isStart; rw [hsn']; rfl⟩)
-    rw [htree, ← this]
-    exact hr
+    obtain ⟨R, f1, f2, f3⟩ := hinv.forest
+    -- the only root is the start chamber
+    have hR : R = [s.2.1] := by
+      rw [hcount] at f3
+      match R, f3 with
+      | [x], _ =>
+        have hx : x ∈ acc.1 := (f2 x).2 (Or.inl (by simp))
+        obtain ⟨s', hs', hsn', hr'⟩ := hinv.reach x hx
+        -- x is a root of the forest, hence not a target: it is the start chamber itself
+        sorry
+    sorry
 
 end DSymVerif.FGP
